@@ -340,6 +340,32 @@ def batch_lifecycle(req):
             return fail("item added to a finished batch", body=name)
         except AssertionError:
             pass
+    # the flush triggered by asking an item (value() / error() / call) instead of flush(): same outcomes per item
+    for name, body in [("all", set_all), ("some", set_some), ("none", set_none), ("exc", raise_exc), ("base", raise_base)]:
+        for ask in ("value", "error", "call"):
+            for which in (0, 1):
+                B, I = _mk_batch(asynq, body)
+                b = B()
+                items = [I(b) for _ in range(3)]
+                it = items[which]
+                try:
+                    got = ("ret", it.value() if ask == "value" else it.error() if ask == "error" else it())
+                except BaseException as e:
+                    got = ("exc", e)
+                if b.flushes != 1 or not b.is_flushed() or not all(x.is_computed() for x in items):
+                    return fail("asking an item of a pending batch must flush the batch exactly once and complete every item", body=name, ask=ask)
+                own_err = it._error
+                if ask == "error":
+                    ok = got[0] == "ret" and got[1] is own_err
+                elif own_err is None:
+                    ok = got[0] == "ret" and got[1] == it._value
+                else:
+                    ok = got[0] == "exc" and got[1] is own_err
+                if not ok:
+                    return fail("an item whose request triggered the flush does not report its own outcome (what the flush set for it)",
+                                body=name, ask=ask, item=which, got=repr(got)[:120], item_value=repr(it._value)[:60], item_error=repr(own_err)[:80])
+                if name == "exc" and (items[0]._value != "kept" or items[0]._error is not None or not isinstance(items[1]._error, ValueError)):
+                    return fail("flush error must reach unset items only; set items keep their value (item-triggered flush)", body=name, ask=ask)
     # cancel paths
     for err in (None, KeyError("why")):
         B, I = _mk_batch(asynq, set_all)
@@ -639,7 +665,7 @@ def sched_clean_after_failures(req):
 
 def _load_all():
     import importlib
-    for m in ("sc_core", "sc_tools", "sc_misc"):
+    for m in ("sc_core", "sc_tools", "sc_misc", "sc_random"):
         try:
             importlib.import_module(m)
         except ModuleNotFoundError as e:
@@ -652,3 +678,148 @@ def all_for_property(pid):
 
 
 _load_all()
+
+
+@scenario(["futures.FutureBase.", "futures.Future.", "futures.ConstFuture.", "futures.ErrorFuture."], ["C10"])
+def fut_random_histories(req):
+    """Random histories of set_value / set_error / reset_unsafe / value() / error() / call / is_computed() on Future (providers that return or raise, re-run after a reset), ConstFuture and ErrorFuture, with a well-behaved and a raising subscriber, against a reference state machine: every operation returns or raises what the reference says, a refused second set changes nothing, subscribers are notified once per completion after the outcome is visible."""
+    import random, io, contextlib
+    from asynq import futures
+    seed0 = int((req or {}).get("seed", 0) or 0)
+    n = 3000 if __import__("os").environ.get("VERIF_TIER", "quick") == "thorough" else 600
+
+    class E(Exception):
+        pass
+    for seed in range(seed0, seed0 + n):
+        rnd = random.Random(seed)
+        kind = rnd.choice(("future", "future", "future", "const", "error"))
+        outcomes = [(rnd.random() < 0.6, i) for i in range(6)]      # provider results, in call order
+        errs = {}
+        calls = [0]
+        seen = []
+
+        def provider():
+            ok, i = outcomes[calls[0] % len(outcomes)]
+            calls[0] += 1
+            if ok:
+                return ("v", i)
+            errs[i] = E("provider %d" % i)
+            raise errs[i]
+        m = {"computed": False, "val": None, "err": None, "notified": 0, "pcalls": 0}
+        e0 = E("initial")
+        if kind == "future":
+            f = futures.Future(provider)
+        elif kind == "const":
+            f = futures.ConstFuture("c")
+            m.update(computed=True, val="c")
+        else:
+            f = futures.ErrorFuture(e0)
+            m.update(computed=True, err=e0)
+        if kind == "future":
+            f.on_computed.subscribe(lambda fut: seen.append((fut.is_computed(), fut._value, fut._error)))
+
+            def boom(fut):
+                raise ValueError("subscriber")
+            f.on_computed.subscribe(boom)
+            f.on_computed.subscribe(lambda fut: seen.append("last"))
+
+        def m_compute():
+            ok, i = outcomes[m["pcalls"] % len(outcomes)]
+            m["pcalls"] += 1
+            m["computed"] = True
+            m["notified"] += 1
+            if ok:
+                m["val"], m["err"] = ("v", i), None
+                return None
+            m["val"], m["err"] = None, ("provider", i)
+            return ("provider", i)
+
+        def same_err(real, model):
+            if model is None:
+                return real is None
+            if isinstance(model, tuple):
+                return real is errs.get(model[1])
+            return real is model
+        hist = []
+        for step in range(rnd.randrange(2, 9)):
+            op = rnd.choice(("set_value", "set_error", "reset", "value", "error", "call", "is_computed", "value", "error"))
+            if kind != "future" and op == "reset" and rnd.random() < 0.5:
+                op = "value"
+            hist.append(op)
+            buf = io.StringIO()
+            with contextlib.redirect_stdout(buf), contextlib.redirect_stderr(buf):
+                try:
+                    if op == "set_value":
+                        got = ("ret", f.set_value(("s", step)))
+                    elif op == "set_error":
+                        es = E("set %d" % step)
+                        got = ("ret", f.set_error(es))
+                    elif op == "reset":
+                        got = ("ret", f.reset_unsafe())
+                    elif op == "value":
+                        got = ("ret", f.value())
+                    elif op == "call":
+                        got = ("ret", f())
+                    elif op == "error":
+                        got = ("ret", f.error())
+                    else:
+                        got = ("ret", f.is_computed())
+                except Exception as e:
+                    got = ("exc", e)
+            # ---- reference
+            if op in ("set_value", "set_error"):
+                if m["computed"]:
+                    want = ("exc", futures.FutureIsAlreadyComputed)
+                else:
+                    m["computed"] = True
+                    m["notified"] += 1
+                    if op == "set_value":
+                        m["val"], m["err"] = ("s", step), None
+                    else:
+                        m["val"], m["err"] = None, es
+                    want = ("ret", None)
+            elif op == "reset":
+                m["computed"], m["err"], m["val"] = False, None, None
+                want = ("ret", None)
+            elif op in ("value", "call", "error"):
+                raised = None
+                if not m["computed"]:
+                    if kind != "future":
+                        want = ("exc", NotImplementedError)     # nothing to recompute after a reset of a constant future
+                        m_ok = False
+                        raised = "notimpl"
+                    else:
+                        raised = m_compute()
+                if raised == "notimpl":
+                    pass
+                elif raised is not None:
+                    want = ("exc", raised)                       # the provider's exception propagates out of the computing call
+                elif op == "error":
+                    want = ("ret_err", m["err"])
+                elif m["err"] is not None:
+                    want = ("exc", m["err"])
+                else:
+                    want = ("ret", m["val"])
+            else:
+                want = ("ret", m["computed"])
+            ok = True
+            if want[0] == "ret":
+                ok = got[0] == "ret" and got[1] == want[1]
+            elif want[0] == "ret_err":
+                ok = got[0] == "ret" and same_err(got[1], want[1])
+            elif isinstance(want[1], type):
+                ok = got[0] == "exc" and isinstance(got[1], want[1])
+            else:
+                ok = got[0] == "exc" and same_err(got[1], want[1])
+            if not ok:
+                return fail("a future operation does not report the outcome the history determines", kind=kind, seed=seed, history=hist,
+                            got=repr(got)[:160], expected=repr(want)[:160])
+            if f.is_computed() != m["computed"]:
+                return fail("is_computed() disagrees with the history", kind=kind, seed=seed, history=hist)
+            if kind == "future":
+                if len([x for x in seen if x == "last"]) != m["notified"] or len(seen) != 2 * m["notified"]:
+                    return fail("subscribers are not notified exactly once per completion (also after one of them raised)", kind=kind,
+                                seed=seed, history=hist, notifications=len(seen), completions=m["notified"])
+                if any(x != "last" and x[0] is not True for x in seen):
+                    return fail("a subscriber was notified before the outcome was visible", kind=kind, seed=seed, history=hist)
+    return None
